@@ -421,6 +421,61 @@ func judge(kind pkind, n *node) (verdict, string) {
 			return vValid, "[" + strings.Join(parts, ",") + "]"
 		}
 		return vInvalid, ""
+	case kStructSliceSlice, kPtrStructSliceSlice:
+		switch n.k {
+		case 'z':
+			return vValid, "null"
+		case 'a':
+			parts := make([]string, len(n.kids))
+			for i, kid := range n.kids {
+				switch kid.k {
+				case 'z':
+					parts[i] = "null"
+				case 'a':
+					inner := make([]string, len(kid.kids))
+					for j, e := range kid.kids {
+						if kind == kPtrStructSliceSlice && e.k == 'z' {
+							inner[j] = "null"
+							continue
+						}
+						v, c := judgeStruct(e)
+						if v != vValid {
+							return v, ""
+						}
+						inner[j] = c
+					}
+					parts[i] = "[" + strings.Join(inner, ",") + "]"
+				default:
+					return vInvalid, ""
+				}
+			}
+			return vValid, "[" + strings.Join(parts, ",") + "]"
+		}
+		return vInvalid, ""
+	case kMapStructSlice:
+		switch n.k {
+		case 'z':
+			return vValid, "null"
+		case 'o':
+			if n.hasDupKeys() {
+				return vUnsure, ""
+			}
+			idx := make([]int, len(n.keys))
+			for i := range idx {
+				idx[i] = i
+			}
+			sort.Slice(idx, func(a, b int) bool { return n.keys[idx[a]] < n.keys[idx[b]] })
+			parts := make([]string, 0, len(idx))
+			for _, i := range idx {
+				v, c := judge(kStructSlice, n.kids[i])
+				if v != vValid {
+					return v, ""
+				}
+				parts = append(parts, strconv.Quote(n.keys[i])+":"+c)
+			}
+			return vValid, "{" + strings.Join(parts, ",") + "}"
+		}
+		return vInvalid, ""
 	case kMapPtrStruct:
 		switch n.k {
 		case 'z':
